@@ -222,3 +222,154 @@ Example pop3_roundtrip_ex :
   pop3_client_decode (pop3_send [65; 13; 10; 46; 13; 10; 46; 46; 66; 10; 13; 67]) =
   Some [65; 13; 10; 46; 13; 10; 46; 46; 66; 13; 10; 13; 67; 13; 10].
 Proof. vm_compute. reflexivity. Qed.
+
+(** * The whole reply on the byte stream (C02's statement for POP3) *)
+
+Lemma take_line_app l w : ~ In LF l -> take_line (l ++ LF :: w) = Some (l, w).
+Proof.
+  induction l as [|c l IH]; intros H; cbn [app take_line].
+  - rewrite N.eqb_refl. reflexivity.
+  - destruct (c =? LF) eqn:E; [apply N.eqb_eq in E; exfalso; apply H; left; exact E|].
+    rewrite IH by (intros X; apply H; right; exact X). reflexivity.
+Qed.
+
+Lemma has_prefix_app p s : has_prefix p (p ++ s) = true.
+Proof. induction p as [|c p IH]; [reflexivity|]. cbn. rewrite N.eqb_refl. exact IH. Qed.
+
+Lemma status_line_read text w :
+  ~ In LF text -> ~ In CR text ->
+  take_line (ok_prefix ++ text ++ CRLF ++ w) = Some ((ok_prefix ++ text) ++ [CR], w) /\
+  trim_cr ((ok_prefix ++ text) ++ [CR]) = ok_prefix ++ text.
+Proof.
+  intros H1 H2. split; [|apply trim_cr_snoc].
+  replace (ok_prefix ++ text ++ CRLF ++ w) with (((ok_prefix ++ text) ++ [CR]) ++ LF :: w)
+    by (unfold CRLF; rewrite <- !app_assoc; reflexivity).
+  apply take_line_app. intros H. apply in_app_or in H. destruct H as [H|[H|[]]]; [|discriminate H].
+  apply in_app_or in H. destruct H as [H|H]; [|exact (H1 H)].
+  unfold ok_prefix in H. cbn in H. intuition discriminate.
+Qed.
+
+(** RETR, for EVERY stored source (any bytes): the client reads the +OK status line, the
+    dot-stuffed CRLF lines up to the terminator, gets exactly the lines of the source, and
+    leaves what follows the terminator unread. *)
+Theorem retr_stream_roundtrip : forall text src rest,
+  ~ In LF text -> ~ In CR text ->
+  client_read_multi (retr_reply text src ++ rest) = Some (ok_prefix ++ text, scan_lines src, rest).
+Proof.
+  intros text src rest H1 H2. unfold client_read_multi, retr_reply.
+  rewrite <- !app_assoc.
+  destruct (status_line_read text (pop3_send src ++ rest) H1 H2) as [A B].
+  rewrite A. cbn zeta. rewrite B, has_prefix_app, pop3_lines_roundtrip. reflexivity.
+Qed.
+
+(** TOP n, for every source and EVERY n. *)
+Theorem top_stream_roundtrip : forall text src n rest,
+  ~ In LF text -> ~ In CR text ->
+  client_read_multi (top_reply text src n ++ rest) = Some (ok_prefix ++ text, top_spec (scan_lines src) n, rest).
+Proof.
+  intros text src n rest H1 H2. unfold client_read_multi, top_reply.
+  rewrite <- !app_assoc.
+  destruct (status_line_read text (pop3_send_top src n ++ rest) H1 H2) as [A B].
+  rewrite A. cbn zeta. rewrite B, has_prefix_app, pop3_top_lines_roundtrip. reflexivity.
+Qed.
+
+(** What TOP shows, in the corner cases. *)
+Lemma header_block_app ls : let (h, b) := header_block ls in ls = h ++ b.
+Proof.
+  induction ls as [|l ls IH]; [reflexivity|]. cbn [header_block]. destruct l as [|c l]; [reflexivity|].
+  destruct (header_block ls) as [h b]. cbn [app]. rewrite IH. reflexivity.
+Qed.
+
+Lemma firstn_N_all {A} (l : list A) : forall n, N.of_nat (length l) <= n -> firstn_N n l = l.
+Proof.
+  induction l as [|x l IH]; intros n H; [reflexivity|]. cbn [firstn_N length] in *.
+  destruct (n =? 0) eqn:E; [lia|]. rewrite IH by lia. reflexivity.
+Qed.
+
+(** n at least the number of body lines: the whole message. *)
+Theorem top_beyond_body : forall ls n,
+  N.of_nat (length (snd (header_block ls))) <= n -> top_spec ls n = ls.
+Proof.
+  intros ls n H. unfold top_spec. pose proof (header_block_app ls) as Ha.
+  destruct (header_block ls) as [h b]. cbn [snd] in H. rewrite firstn_N_all by exact H. symmetry. exact Ha.
+Qed.
+
+(** A source without header/body separator (no empty line): everything is header, TOP n
+    shows the whole message for every n. *)
+Lemma header_block_no_sep ls : (forall l, In l ls -> l <> []) -> header_block ls = (ls, []).
+Proof.
+  induction ls as [|l ls IH]; intros H; [reflexivity|]. cbn [header_block].
+  destruct l as [|c l]; [exfalso; apply (H []); [left; reflexivity|reflexivity]|].
+  rewrite IH by (intros l' H'; apply H; right; exact H'). reflexivity.
+Qed.
+
+Theorem top_no_separator : forall ls n, (forall l, In l ls -> l <> []) -> top_spec ls n = ls.
+Proof.
+  intros ls n H. unfold top_spec. rewrite header_block_no_sep by exact H. cbn. apply app_nil_r.
+Qed.
+
+(** TOP 0: the header block with its separating empty line, nothing of the body. *)
+Theorem top_zero : forall ls, top_spec ls 0 = fst (header_block ls).
+Proof.
+  intros ls. unfold top_spec. destruct (header_block ls) as [h b]. cbn [fst].
+  destruct b; cbn; apply app_nil_r.
+Qed.
+
+(** TOP never shows more than the message, and always a prefix of it. *)
+Theorem top_is_prefix : forall ls n, exists more, ls = top_spec ls n ++ more.
+Proof.
+  intros ls n. unfold top_spec. pose proof (header_block_app ls) as Ha. destruct (header_block ls) as [h b].
+  assert (G : forall (l : list str) k, exists m, l = firstn_N k l ++ m).
+  { induction l as [|x l IH]; intros k; [exists []; reflexivity|]. cbn [firstn_N].
+    destruct (k =? 0); [exists (x :: l); reflexivity|]. destruct (IH (N.pred k)) as [m Hm]. exists m. cbn [app]. f_equal. exact Hm. }
+  destruct (G b n) as [m Hm]. exists m. rewrite <- app_assoc, <- Hm. exact Ha.
+Qed.
+
+(** ** Line-ending normalisation *)
+
+Definition strip_eol (s : str) : str := filter (fun c => negb ((c =? CR) || (c =? LF))) s.
+
+Lemma strip_eol_app a b : strip_eol (a ++ b) = strip_eol a ++ strip_eol b.
+Proof. apply filter_app. Qed.
+
+Lemma strip_eol_trim_cr l : strip_eol (trim_cr l) = strip_eol l.
+Proof.
+  induction l as [|c l IH]; [reflexivity|]. cbn [trim_cr]. destruct l as [|d l'].
+  - destruct (c =? CR) eqn:E; [|reflexivity]. unfold strip_eol. cbn. rewrite E. reflexivity.
+  - change (c :: d :: l') with ([c] ++ d :: l'). change (c :: trim_cr (d :: l')) with ([c] ++ trim_cr (d :: l')).
+    rewrite !strip_eol_app, IH. reflexivity.
+Qed.
+
+Lemma strip_eol_lines_lf s : strip_eol (concat (lines_lf s)) = strip_eol s.
+Proof.
+  induction s as [|c s IH]; [reflexivity|]. cbn [lines_lf]. destruct (c =? LF) eqn:E.
+  - cbn [concat app]. rewrite IH. apply N.eqb_eq in E. subst c. reflexivity.
+  - destruct (lines_lf s) as [|l ls] eqn:El.
+    + cbn [concat app] in *. change (c :: s) with ([c] ++ s). rewrite strip_eol_app, <- IH. cbn. rewrite app_nil_r. reflexivity.
+    + cbn [concat] in *. change ((c :: l) ++ concat ls) with ([c] ++ (l ++ concat ls)).
+      change (c :: s) with ([c] ++ s). rewrite (strip_eol_app [c] (l ++ concat ls)), (strip_eol_app [c] s), IH. reflexivity.
+Qed.
+
+(** Only line endings differ between a source and what the client reassembles: the bytes
+    other than CR and LF are the same, in the same order. *)
+Theorem pop3_norm_only_line_endings : forall src, strip_eol (pop3_norm src) = strip_eol src.
+Proof.
+  intros src. unfold pop3_norm, crlf_join, wire_lines, scan_lines.
+  rewrite <- (strip_eol_lines_lf src).
+  induction (lines_lf src) as [|l ls IH]; [reflexivity|].
+  cbn [map concat]. rewrite !strip_eol_app, IH, strip_eol_trim_cr. cbn. rewrite app_nil_r. reflexivity.
+Qed.
+
+(** Normalising twice changes nothing; a normalised message is delivered byte for byte. *)
+Theorem pop3_norm_idempotent : forall src, pop3_norm (pop3_norm src) = pop3_norm src.
+Proof.
+  intros src. unfold pop3_norm. rewrite scan_lines_crlf_join by apply scan_lines_no_lf. reflexivity.
+Qed.
+
+Theorem retr_delivers_normalised : forall src,
+  pop3_client_decode (pop3_send src) = Some (pop3_norm src) /\
+  pop3_client_decode (pop3_send (pop3_norm src)) = Some (pop3_norm src).
+Proof.
+  intros src. split; [apply pop3_roundtrip|]. rewrite pop3_roundtrip. fold (pop3_norm (pop3_norm src)).
+  rewrite pop3_norm_idempotent. reflexivity.
+Qed.
